@@ -5,6 +5,7 @@ go 1.22.0
 require (
 	github.com/anishathalye/porcupine v1.3.0
 	github.com/ansible/receptor v0.0.0
+	github.com/gorilla/websocket v1.5.3
 	github.com/minio/highwayhash v1.0.3
 )
 
@@ -12,7 +13,6 @@ require (
 	github.com/francoispqt/gojay v1.2.13 // indirect
 	github.com/fsnotify/fsnotify v1.7.0 // indirect
 	github.com/ghjm/cmdline v0.1.2 // indirect
-	github.com/gorilla/websocket v1.5.3 // indirect
 	github.com/hashicorp/hcl v1.0.0 // indirect
 	github.com/jupp0r/go-priority-queue v0.0.0-20160601094913-ab1073853bde // indirect
 	github.com/magiconair/properties v1.8.7 // indirect
